@@ -226,6 +226,7 @@ func ZZ_C11_gc_leaked_enis() {
 		typ, st string
 	}
 	ms := make([]meta, n)
+	var refs []v1beta1.Allocation
 	cl := &zzClient{listErr: zz.Bool("list.fails")}
 	for i := 0; i < n; i++ {
 		is := strconv.Itoa(i)
@@ -246,8 +247,14 @@ func ZZ_C11_gc_leaked_enis() {
 		parses["ts-"+is] = m.parses
 		enis = append(enis, e)
 		if m.ref {
-			cl.podENIs = append(cl.podENIs, v1beta1.PodENI{Spec: v1beta1.PodENISpec{Allocations: []v1beta1.Allocation{{ENI: v1beta1.ENI{ID: "eni-" + is}}}}})
+			refs = append(refs, v1beta1.Allocation{ENI: v1beta1.ENI{ID: "eni-" + is}})
 		}
+	}
+	if len(refs) > 0 {
+		// one multi-interface record: its first allocation names an interface that is not among the
+		// candidates (too young, in another state), the referenced candidates follow
+		all := append([]v1beta1.Allocation{{ENI: v1beta1.ENI{ID: "eni-not-a-candidate"}}}, refs...)
+		cl.podENIs = append(cl.podENIs, v1beta1.PodENI{Spec: v1beta1.PodENISpec{Allocations: all}})
 	}
 	cloud := &zzLeakCloud{}
 	r := &ReconcilePodENI{client: cl, aliyun: cloud}
